@@ -261,7 +261,7 @@ Bd(media, bi, req) == [media |-> media, schema |-> BodyPool[bi], required |-> re
 MJson == "application/json"
 MText == "text/plain"
 (* parameter / body sets are written as index tuples: <<>>, <<req, leaf>> or <<req, leaf, leaf2>> (second one optional) *)
-LeafIdx(loc) == IF Rich THEN (IF loc = "query" THEN (1..16) \cup {18, 19, 20} ELSE {1, 2, 3, 4, 5, 6, 9, 12, 13, 14, 15, 18, 19}) ELSE (IF loc = "query" THEN {1, 2, 3, 4, 5, 6, 10, 11, 13, 14, 18, 20} ELSE {1, 2, 5, 6, 13})
+LeafIdx(loc) == IF Rich THEN (IF loc = "query" THEN (1..16) \cup {18, 19, 20} ELSE {1, 2, 3, 4, 5, 6, 9, 12, 13, 14, 15}) ELSE (IF loc = "query" THEN {1, 2, 3, 4, 5, 6, 10, 11, 13, 14, 18, 20} ELSE {1, 2, 5, 6, 13})
 QueryIdx == {<<0, 0, 0>>} \cup {<<r, a, 0>> : r \in {1, 2}, a \in LeafIdx("query")}
             \cup {<<r, a, b>> : r \in {1, 2}, a \in (IF Rich THEN LeafIdx("query") ELSE {1, 2, 5, 6}), b \in {1, 2, 6}}
 PathIdx == {<<0, 0, 0>>} \cup {<<2, a, 0>> : a \in LeafIdx("path")} \cup {<<2, a, b>> : a \in {1, 6}, b \in {2, 5}}
